@@ -44,6 +44,17 @@ theorem finishReply_ok (R : RespTab) (c : Conn) (h : CountFaultFree R.fault) : H
   unfold finishReply HOk
   exact ⟨(closeConn_addr R c).1, (closeConn_addr R c).2, closeConn_cf R c h⟩
 
+theorem runReply_ok (R1 : RespTab) (c1 : Conn) (r : Nat) (cl : Bool) (hR1 : CountFaultFree R1.fault) :
+    HOk c1 (runReply R1 c1 r cl) := by
+  unfold runReply
+  split
+  · exact ⟨(closeConn_addr R1 _).1, (closeConn_addr R1 _).2, closeConn_cf R1 _ hR1⟩
+  · split
+    · exact ⟨(closeConn_addr R1 _).1, (closeConn_addr R1 _).2, closeConn_cf R1 _ hR1⟩
+    · split
+      · exact ⟨rfl, rfl, hR1⟩
+      · exact finishReply_ok R1 _ hR1
+
 theorem doReply_ok (cfg : Cfg) (R : RespTab) (c : Conn) (r : Nat) (cl : Bool) (h : CountFaultFree R.fault) :
     HOk c (doReply cfg R c r cl) := by
   unfold doReply
@@ -55,13 +66,41 @@ theorem doReply_ok (cfg : Cfg) (R : RespTab) (c : Conn) (r : Nat) (cl : Bool) (h
       · exact ⟨rfl, rfl, h⟩
       · rename_i R1 hacq
         have hR1 := acquire_cf R R1 _ h hacq
-        split
-        · exact ⟨(closeConn_addr R1 _).1, (closeConn_addr R1 _).2, closeConn_cf R1 _ hR1⟩
-        · split
-          · exact ⟨(closeConn_addr R1 _).1, (closeConn_addr R1 _).2, closeConn_cf R1 _ hR1⟩
-          · split
-            · exact ⟨rfl, rfl, hR1⟩
-            · exact finishReply_ok R1 _ hR1
+        exact runReply_ok R1 _ r cl hR1
+
+theorem interimOne_cf (R : RespTab) (c : Conn) (r : Nat) (h : CountFaultFree R.fault) :
+    CountFaultFree (interimOne R c r).1.fault := by
+  unfold interimOne
+  split
+  · exact h
+  · split
+    · exact h
+    · rename_i R1 hacq
+      exact release_cf _ _ (acquire_cf R R1 _ h hacq)
+
+theorem interims_cf (c : Conn) (l : List Nat) : ∀ (R : RespTab), CountFaultFree R.fault →
+    CountFaultFree (interims R c l).1.fault := by
+  induction l with
+  | nil => intro R h; exact h
+  | cons r rest ih =>
+    intro R h
+    unfold interims
+    have h1 := interimOne_cf R c r h
+    generalize interimOne R c r = q at h1 ⊢
+    obtain ⟨R1, ok, e⟩ := q
+    cases ok with
+    | false => exact h1
+    | true => exact ih R1 h1
+
+theorem replyPre_ok (cfg : Cfg) (R : RespTab) (c : Conn) (r : Nat) (cl : Bool) (pre : List Nat)
+    (h : CountFaultFree R.fault) : HOk c (replyPre cfg R c r cl pre) := by
+  unfold replyPre
+  have h1 := interims_cf c pre R h
+  generalize interims R c pre = q at h1 ⊢
+  obtain ⟨R1, ok, e⟩ := q
+  cases ok with
+  | false => exact ⟨rfl, rfl, h1⟩
+  | true => exact doReply_ok cfg R1 c r _ h1
 
 theorem handleReq_ok (cfg : Cfg) (R : RespTab) (c : Conn) (h : CountFaultFree R.fault) :
     HOk c (handleReq cfg R c) := by
@@ -71,7 +110,11 @@ theorem handleReq_ok (cfg : Cfg) (R : RespTab) (c : Conn) (h : CountFaultFree R.
   · split
     · exact ⟨rfl, rfl, h⟩
     · exact ⟨rfl, rfl, by simp [CountFaultFree]⟩
-  · exact doReply_ok cfg R c _ _ h
+  · exact replyPre_ok cfg R c _ _ _ h
+  · exact ⟨rfl, rfl, h⟩
+  · split
+    · exact runReply_ok R _ _ true h
+    · exact ⟨rfl, rfl, h⟩
 
 theorem afterReq_ok (R : RespTab) (c : Conn) (h : CountFaultFree R.fault) : HOk c (afterReq R c) := by
   unfold afterReq
@@ -280,6 +323,27 @@ theorem suspUpd_inv (s : St) (id : Nat) (f : Conn → Conn) (hf : ∀ c, (f c).a
   · have := h.conns; simp only [mu_updConn _ id f hf] at this ⊢; exact this
   · intro a; have := h.ip a; simp only [tot, mu_updConn _ id f hf] at this ⊢; exact this
 
+theorem setQueued_addr (r : Nat) (c : Conn) : (setQueued r c).addr = c.addr := rfl
+
+theorem mu_queueFirst (p) (id r : Nat) (l : List Conn) : mu p (queueFirst id r l) = mu p l := by
+  induction l with
+  | nil => rfl
+  | cons x l ih =>
+    unfold queueFirst
+    split
+    · simp only [mu_cons, setQueued_addr]; rfl
+    · simp [ih]
+
+theorem extQueue_inv (s : St) (c r : Nat) (h : Inv s) : Inv (extQueue s c r).1 := by
+  unfold extQueue
+  split
+  · exact h
+  · split
+    · exact h
+    · refine ⟨?_, h.le, ?_, h.ipLe, h.cf⟩
+      · have := h.conns; simp only [mu_queueFirst] at this ⊢; exact this
+      · intro a; have := h.ip a; simp only [tot, mu_queueFirst] at this ⊢; exact this
+
 theorem step_inv (s : St) (o : Op) (h : Inv s) : Inv (step s o).1 := by
   unfold step
   split
@@ -308,6 +372,8 @@ theorem step_inv (s : St) (o : Op) (h : Inv s) : Inv (step s o).1 := by
       · exact h
       · refine h.congr rfl rfl rfl rfl rfl rfl rfl ?_
         exact release_cf _ _ cf_none
+    | extQueue c r => exact extQueue_inv s c r h
+    | acceptFail => exact h
 
 theorem init_inv (cfg : Cfg) : Inv (St.init cfg) := by
   refine ⟨rfl, Nat.zero_le _, ?_, fun _ => Nat.zero_le _, cf_none⟩
